@@ -392,6 +392,15 @@ pub fn run(tier: Tier) -> Report {
     for n in 1..=3 {
         gn.push(Sys { n, rows: vec![] });
     }
+    // rows just above the "negligible" threshold (entries 2^-51 and 2^-52 next to f64::EPSILON = 2^-52): they are
+    // ordinary constraints, scaled; and rows whose directions are 2^-27 rad apart (x <= 1 against x + 2^-27 y <= 1)
+    let (t51, t52, a27) = (2f64.powi(-51), 2f64.powi(-52), 2f64.powi(-27));
+    let mut ge: Vec<Sys> = systems(2, 2, &[0.0, t51, -t51, t52], &[-t51, t51]).into_iter().filter(|s| s.rows.iter().any(|(a, _)| a.iter().any(|v| *v == t52) && a.iter().any(|v| v.abs() == t51))).collect();
+    ge.extend(systems(1, 2, &[t51, -t51, 2.0 * t51], &[-t51, t51, 2.0 * t51]));
+    ge.extend(systems(2, 2, &[0.0, 1.0, -1.0, a27], &[-1.0, 1.0]).into_iter().filter(|s| s.rows.iter().any(|(a, _)| a.iter().any(|v| *v == a27) && a.iter().any(|v| v.abs() == 1.0))));
+    rep.set("systems_near_epsilon", ge.len() as u64);
+    let t4 = par_cases(&ge, |_, s| check_system_opt(s, true, false));
+    rep.absorb(t4);
     let t3 = par_cases(&gn, |_, s| check_system_opt(s, true, true));
     rep.absorb(t3);
     rep.set("systems_total", g.len() as u64);
